@@ -75,6 +75,16 @@ Example ex_merge_bw_self :
                  [1]%nat (T [lf "define-fun"; lf "f"; T []; bv "8"; lf "abc"]) = None.
 Proof. vm_compute. repeat split; reflexivity. Qed.
 
+(* the inner definition is recursive: a := ((_ zero_extend 2) a), b := ((_ zero_extend 1) a); nothing is proposed for
+   the definition of b (merging would build ((_ zero_extend 3) a) from the body of a, again and again) *)
+Definition defs_rec : list defn := [mk_defn (lit "a") [] (zx "2" (lf "a")); mk_defn (lit "b") [] (zx "1" (lf "a"))].
+Example ex_merge_bw_recursive :
+  is_recursive defs_rec (lit "a") = true /\
+  last_of_last (T [lf "define-fun"; lf "b"; T []; bv "8"; zx "1" (lf "a")]) = LLnode (lf "a") /\
+  rw_bv_merge_bw (one_sort (lf "b") (bv "8")) defs_rec [1]%nat (T [lf "define-fun"; lf "b"; T []; bv "8"; zx "1" (lf "a")])
+  = Some [].
+Proof. vm_compute. repeat split; reflexivity. Qed.
+
 (* ---- StringContainsToConcat ---- *)
 Example ex_str_contains :
   rw_str_contains (names []) (T [lf "str.contains"; lf "s"; lf "t"])
